@@ -159,7 +159,10 @@ def render_var(name, val):
 
 
 def render_class(cname, attrs):
-    return "class %s:\n%s" % (cname, "".join("    %s = %r\n" % (k, v) for k, v in attrs.items()) or "    pass\n")
+    def lit(v):  # {"__ref__": name}: the attribute holds another module-level object (a class defined earlier)
+        return v["__ref__"] if isinstance(v, dict) and "__ref__" in v else repr(v)
+
+    return "class %s:\n%s" % (cname, "".join("    %s = %s\n" % (k, lit(v)) for k, v in attrs.items()) or "    pass\n")
 
 
 HEADER = "import sys\nimport functools\n"
